@@ -7,6 +7,7 @@ R13.3  mock bodies raise: every path of _transform_to_mock that writes a `def` w
 R13.4  naming agreement: client class / module / Protocol / mock class names are derived from the canonical tag by the
        same functions in all six places
 R13.8  no function of visit/endpoint changes its IROperation (or an alias of one of its attributes) in place: the three renderings see one operation
+R13.10 a streamed primary response declared as `2XX` gets its `yield` loop in the client method (Protocol and mock are async generators)   [= R5.18]
 R13.9  the resolver's "this is the model's own module" decision compares the directory / package of the current file, not just its name
 R13.7  an instance-level memo table in the visit/endpoint generators is keyed by every parameter its value is computed from
 R13.6  a consumer that reads the nature from the one line closing a rendered signature obliges CodeWriter.write_function_signature to put the
@@ -224,6 +225,9 @@ def run(repo: Repo, rep: Report, tier: str) -> None:
     rule_memo_keys(repo, rep, "R13.7")
     rule_ir_not_mutated(repo, rep, "R13.8")
     rule_self_import_compares_the_package(repo, rep, "R13.9")
+    from rules.c05 import rule_range_primary_gets_an_arm
+
+    rule_range_primary_gets_an_arm(repo, rep, "R13.10")
     # ---------------------------------------------------------------- R13.6 one-line sniffing obliges the signature writer
     # A consumer that looks for the return annotation in ONE rendered line (the line that closes the signature) relies on the
     # signature writer putting the whole annotation on that line; a consumer that joins the collected lines does not.
